@@ -1490,6 +1490,8 @@ theorem addTop_sound {tbl : Schema} (hw : WFP tbl) {dup : List TopMod → TopMod
   rename_i isSub hsub
   split at h
   · cases h
+  split at h
+  · cases h
   rename_i hty
   have hty : a.ty = tbl.moduleTy := by simpa using hty
   split at h
@@ -1601,6 +1603,8 @@ theorem addTop_no_crash {tbl : Schema} (hw : WFP tbl) {dup : List TopMod → Top
   split at h
   · cases h; simp
   rename_i isSub hsub
+  split at h
+  · cases h; simp
   split at h
   · rename_i hne
     exfalso
